@@ -190,10 +190,16 @@ def task_make_copy(pr, repo):
     pr.explore(ex, thunk, 'Atom.make_copy')
 
 
+def task_pair_loop(pr, repo):
+    # every pair of groups is examined whatever their titratable flags (C05-SD): unlisted residues still interact with each other
+    from . import C05
+    C05.task_set_determinants(pr, repo)
+
+
 def run(pr, repo):
     from . import C16
     # an unlisted residue still acts as charge / hydrogen-bond partner: pair terms are decided per term (iterative pairs included)
-    pr.parallel([(task_parse, ()), (task_init_group, ()), (task_setup_and_add, ()), (task_make_copy, ()), (C16.task_iterative, (True,))])
+    pr.parallel([(task_parse, ()), (task_init_group, ()), (task_setup_and_add, ()), (task_make_copy, ()), (C16.task_iterative, (True,)), (task_pair_loop, ())])
     c = frames.census(repo)
     readers = c.readers('titrate_only')
     extra = sorted(readers - {CC + '.init_group', 'propka.lib.loadOptions'})
